@@ -89,7 +89,7 @@ def _plain(x) -> bool:
 
 def section_text(ctx) -> None:
     rng = ctx.rng
-    n = ctx.scale(400, 6000)
+    n = ctx.scale(150, 6000)
     pc, keep_p, rc, keep_r = [], [], [], []
     texts = []
     for _ in range(n):
@@ -229,7 +229,7 @@ def fixed_histories() -> list:
 
 def section_histories(ctx) -> list:
     rng = ctx.rng
-    n = ctx.scale(10, 120)
+    n = ctx.scale(6, 150)
     jobs = []
     for i, h in enumerate(fixed_histories()):
         jobs.append({'layout': '++', 'history': h})
@@ -291,26 +291,25 @@ def section_crashes(ctx) -> None:
     for i, h in enumerate(fixed):
         jobs.append({'layout': '++' if i % 2 == 0 else 'fs', 'history': h})
     jobs.append({'layout': '++', 'history': fixed[0], 'crossfs': True})
-    for i in range(ctx.scale(4, 90)):
+    for i in range(ctx.scale(4, 150)):
         jobs.append({'layout': rng.choice(['++', 'fs']),
-                     'history': MM.gen_history(rng, rng.randint(3, 5),
+                     'history': MM.gen_history(rng, rng.randint(3, 6),
                                                weights={'noop': 0, 'examine': 0}),
                      'crossfs': rng.random() < 0.15})
-    if ctx.quick:
-        # exhaustive for the first fixed history, every third point (random
-        # phase) for the others; thorough enumerates every crash point
-        def pick(total, _state={'i': 0}):
-            _state['i'] += 1
-            if _state['i'] == 1:
-                return range(total + 1)
-            ph = rng.randrange(3)
-            return [k for k in range(total + 1) if k % 3 == ph] + [total]
-    else:
-        def pick(total):
-            return range(total + 1)
-    results = M.crash_campaign(jobs, pick)
+    # every filesystem-operation boundary of every history (the directory is
+    # copied at each boundary of one traced run); a sample of the boundaries
+    # is also reached by really killing a child process there
+    nkill = ctx.scale(1, 6)
+
+    def pick(total):
+        return range(total + 1)
+
+    def pick_kills(total):
+        return rng.sample(range(total + 1), min(nkill, total + 1))
+    results = M.crash_campaign(jobs, pick, pick_kills)
     cases, keep = [], []
     points = 0
+    kills = 0
     kinds: dict = {}
     for r in results:
         ref = r.get('ref')
@@ -319,13 +318,24 @@ def section_crashes(ctx) -> None:
         if any(c['status'] in ('BYE', 'NONE', 'BAD') for c in ref['cmds']):
             continue          # reported by section_histories' monitors
         ok = True
-        for cr in r['crashes']:
-            points += 1
-            if not MM.determinism_ok(r, cr):
-                ctx.broken.append(f'harness: killed run at k={cr["k"]} did not replay the '
+        for kl in r['kills']:
+            kills += 1
+            ctx.count(('kill', r['layout'], json.dumps(r['history']), kl['k']))
+            if not MM.determinism_ok(r, kl):
+                ctx.broken.append(f'harness: killed run at k={kl["k"]} did not replay the '
                                   f'reference trace ({r["history"]})')
                 ok = False
-                break
+            elif not MM.kill_matches_copy(r, kl):
+                ctx.disagreement('kill_vs_copy', {
+                    'what': 'a process really killed at k leaves another state than the '
+                            'copy of the directory taken at k', 'k': kl['k'],
+                    'history': r['history'], 'layout': r['layout']})
+            for clause, text, obs in MM.durability_failures(r, kl):
+                ctx.failure(clause, text, {'layout': r['layout'], 'history': r['history'],
+                                           'k': kl['k'], 'crossfs': r['crossfs'],
+                                           'real_kill': True}, obs)
+        for cr in r['crashes']:
+            points += 1
             a = MM.acked_count(cr)
             kinds[a == len(ref['cmds'])] = kinds.get(a == len(ref['cmds']), 0) + 1
             ctx.count(('crash', r['layout'], json.dumps(r['history']), cr['k']))
@@ -336,8 +346,9 @@ def section_crashes(ctx) -> None:
             cases.append(MM.crash_case(r))
             keep.append(r)
     ctx.extra['crash_points'] = points
+    ctx.extra['real_kills'] = kills
     ctx.extra['crash_histories'] = len(keep)
-    ctx.exhaustive = not ctx.quick
+    ctx.exhaustive = True     # every operation boundary of every generated history
     bad = ctx.run_cases('crash', HEADER, 'layout * fs * list cmd * list (nat * bool * odump)',
                         cases, 'chk_crash', shard=2)
     for i in bad[:5]:
@@ -375,11 +386,11 @@ def replay(ctx, obj) -> int:
     jobs = [{'layout': r.get('layout', '++'), 'history': [MM._tup(c) for c in r['history']],
              'crossfs': r.get('crossfs', False)}]
     ks = [r['k']] if 'k' in r else []
-    res = M.crash_campaign(jobs, lambda total: ks)[0]
+    res = M.crash_campaign(jobs, lambda total: ks, lambda total: ks)[0]
     for c in res['ref']['cmds']:
         print(c['cmd'], c['status'])
-    for cr in res['crashes']:
-        print('k', cr['k'], 'locks', cr['locks'])
+    for cr in res['crashes'] + res['kills']:
+        print('k', cr['k'], 'real kill' if cr.get('killed') else 'copy', 'locks', cr['locks'])
         print(' raw ', {f: [(m['uid'], m['flags'], m['cid']) for m in v['msgs']]
                         for f, v in cr['dump_raw']['folders'].items()}, cr['dump_raw']['errors'])
         for f in MM.durability_failures(res, cr):
